@@ -16,14 +16,14 @@ func init() {
 		Run:   checkC17,
 		Explanation: "The numeric clause (CalculateBackoff within +/-Jitter of the capped exponential, never negative, for every float input) needs an abstract interpretation of IEEE arithmetic through math.Pow and is NOT decided. Decided: (R1) an acquisition round first waits time.After(10 ms + rand*(90 ms)) in a select with ctx.Done(), makes at most 4 attempts (loop bound 0..3 inclusive, step 1), calls the acquisition function once per iteration and waits CalculateBackoff(DefaultBackoffConfig(), i) between iterations in a select with ctx.Done(); " +
 			"(R2) CircuitBreaker.Call runs under its mutex; while the state is Open and the cooldown has not elapsed the operation is not reachable; an error increments failures by 1 and opens the breaker at failures >= threshold; a success resets failures and closes it; " +
-			"(R4) in CalculateBackoff the exponential term is clamped to MaxBackoff before any conversion to an integer duration (one structural necessary condition of the numeric clause); (R3) RetryWithBackoff invokes the operation once per iteration, returns on success, on a permanent error, on ctx.Err() != nil / ctx.Done(), and when MaxAttempts > 0 and attempt >= MaxAttempts-1; attempt is incremented by 1 only after the backoff wait.",
+			"(R4) in CalculateBackoff the exponential term reaches a conversion to an integer duration only through a clamp of the form `value <= MaxBackoff` that HOLDS (its NaN-blind negation and the builtin min let 0 * +Inf = NaN through; one structural necessary condition of the numeric clause); (R3) RetryWithBackoff, explored path by path through whatever helpers its body is split into: with the invocation's result nil, or IsPermanentError(err) true, or ctx.Err() != nil, or the wait's ctx.Done() case taken, or attempt >= MaxAttempts-1 under MaxAttempts > 0, or MaxAttempts < 0, no further invocation is reachable; every path from one invocation to the next passes the single backoff wait CalculateBackoff(cfg.BackoffConfig, attempt) on a counter that starts at 0 and advances by 1.",
 		NotDecided: []string{"CalculateBackoff's numeric range for all float inputs (IEEE arithmetic through math.Pow)", "that rand.Float64 is uniform on [0,1)", "observed rounds in simulated elections (a runtime notion)"},
 		Assumptions: []string{"math/rand/v2.Float64 returns a value in [0,1)", "time.After semantics"},
 		Rules: map[string]string{
 			"R1": "initial wait == time.After(10ms + Duration(rand.Float64()*90ms)) in a select with ctx.Done(); loop test `i <= 3` on a counter starting at 0 with step 1; exactly one call of the acquisition function per iteration; inter-attempt wait == time.After(CalculateBackoff(DefaultBackoffConfig(), i)) in a select with ctx.Done()",
 			"R2": "fn() is under the breaker mutex; unreachable from the edge state==Open && since<cooldown; failures+1 on error; state=Open iff threshold <= failures (non-strict); failures=0 and state=Closed on success",
-			"R4": "in CalculateBackoff every float->integer conversion is applied to a value that depends on math.Pow only through the phi edge guarded by NOT (MaxBackoff < value) (one necessary condition of the numeric clause: no int64 overflow of the unclamped exponential)",
-			"R3": "one fn/breaker call per iteration; exits: err==nil, IsPermanentError(err), ctx.Err()!=nil, ctx.Done(), MaxAttempts>0 && attempt >= MaxAttempts-1; attempt+1 only on the timer case",
+			"R4": "in CalculateBackoff every float->integer conversion is applied to a value that depends on math.Pow only through a phi edge on which (value <= MaxBackoff) or (value < MaxBackoff) holds; calls (builtin min, math.Abs, helpers) pass the dependence on (one necessary condition of the numeric clause: no int64 overflow of the unclamped exponential, no NaN)",
+			"R3": "invocations = calls of the function parameter / CircuitBreaker.Call(it) in RetryWithBackoff and its single-call-site helpers; path exploration (following helper returns into the caller with the returned constants, under the stated assumption) finds no second invocation after: result nil | IsPermanentError true | ctx.Err() != nil edge | ctx.Done() case of the wait | MaxAttempts-1 <= attempt under 0 < MaxAttempts | MaxAttempts < 0; exactly one bounded wait, CalculateBackoff(cfg.BackoffConfig, counter), on every path between two invocations; counter from 0 step 1",
 		},
 	})
 }
